@@ -1,2 +1,95 @@
 //! Shared enumerators (DESIGN.md section 4).
 pub mod echar;
+pub mod etok;
+
+use crate::core::{Ctx, Space};
+use serde_json::{json, Value};
+
+/// A finite list of texts given explicitly.
+pub struct TextList {
+    pub id: String,
+    pub texts: Vec<String>,
+    pub per_block: usize,
+}
+
+pub enum TextGen {
+    Chars(echar::EChar),
+    Toks(etok::ETok),
+    List(TextList),
+}
+
+/// A space of source texts with a text oracle.
+pub struct TextSpace {
+    pub gen: TextGen,
+    pub oracle: fn(&str, &mut Ctx),
+    pub timeout_s: u64,
+}
+
+impl TextSpace {
+    pub fn chars(e: echar::EChar, oracle: fn(&str, &mut Ctx)) -> Box<dyn Space> {
+        Box::new(TextSpace { gen: TextGen::Chars(e), oracle, timeout_s: 60 })
+    }
+    pub fn toks(e: etok::ETok, oracle: fn(&str, &mut Ctx)) -> Box<dyn Space> {
+        Box::new(TextSpace { gen: TextGen::Toks(e), oracle, timeout_s: 90 })
+    }
+    pub fn list(id: &str, texts: Vec<String>, per_block: usize, oracle: fn(&str, &mut Ctx)) -> Box<dyn Space> {
+        Box::new(TextSpace { gen: TextGen::List(TextList { id: id.to_string(), texts, per_block }), oracle, timeout_s: 120 })
+    }
+}
+
+impl Space for TextSpace {
+    fn name(&self) -> String {
+        match &self.gen {
+            TextGen::Chars(e) => format!("E-CHAR/{}/len<={}", e.alpha.id, e.max_len),
+            TextGen::Toks(e) => e.name.clone(),
+            TextGen::List(l) => l.id.clone(),
+        }
+    }
+    fn describe(&self) -> Value {
+        match &self.gen {
+            TextGen::Chars(e) => e.describe(),
+            TextGen::Toks(e) => e.describe(),
+            TextGen::List(l) => json!({"space": l.id, "texts": l.texts.len()}),
+        }
+    }
+    fn num_blocks(&self) -> u64 {
+        match &self.gen {
+            TextGen::Chars(e) => e.num_blocks(),
+            TextGen::Toks(e) => e.num_blocks(),
+            TextGen::List(l) => ((l.texts.len() + l.per_block - 1) / l.per_block).max(1) as u64,
+        }
+    }
+    fn run_block(&self, block: u64, ctx: &mut Ctx) {
+        let oracle = self.oracle;
+        match &self.gen {
+            TextGen::Chars(e) => e.block(block, &mut |t| {
+                if ctx.begin(|| json!({"text": t})) {
+                    oracle(t, ctx);
+                }
+            }),
+            TextGen::Toks(e) => e.block(block, &mut |t, _| {
+                if ctx.begin(|| json!({"text": t})) {
+                    oracle(t, ctx);
+                }
+            }),
+            TextGen::List(l) => {
+                let lo = block as usize * l.per_block;
+                let hi = (lo + l.per_block).min(l.texts.len());
+                for t in &l.texts[lo.min(hi)..hi] {
+                    if ctx.begin(|| json!({"text": t})) {
+                        oracle(t, ctx);
+                    }
+                }
+            }
+        }
+    }
+    fn replay(&self, case: &Value, ctx: &mut Ctx) {
+        if let Some(t) = case["text"].as_str() {
+            ctx.begin(|| json!({"text": t}));
+            (self.oracle)(t, ctx);
+        }
+    }
+    fn block_timeout_s(&self) -> u64 {
+        self.timeout_s
+    }
+}
